@@ -348,41 +348,41 @@ def callB (k : Builtin) (args : List Val) (s : St) : (Val × St) ⊕ Str :=
     | _ => err "arity"
   | .readFile =>
     match args with
-    | [.str p] => match s.world.readFile p with | some c => .inl (.str c, s) | none => err "fs-error"
+    | [.str p] => match s.world.readFileP p with | some c => .inl (.str c, s) | none => err "fs-error"
     | [_] => err "must-be-string"
     | _ => err "arity"
   | .writeFile =>
     match args with
-    | [.str p, .str c] => withWorld (s.world.writeFile p c) (.bool true)
+    | [.str p, .str c] => withWorld (s.world.writeFileP p c) (.bool true)
     | [_, _] => err "must-be-strings"
     | _ => err "arity"
   | .deleteFile =>
     match args with
-    | [.str p] => withWorld (s.world.deleteFile p) (.bool true)
+    | [.str p] => withWorld (s.world.deleteFileP p) (.bool true)
     | [_] => err "must-be-string"
     | _ => err "arity"
   | .createDir =>
     match args with
-    | [.str p] => withWorld (s.world.createDirAll p) (.bool true)
+    | [.str p] => withWorld (s.world.createDirAllP p) (.bool true)
     | [_] => err "must-be-string"
     | _ => err "arity"
   | .readDir =>
     match args with
     | [.str p] =>
-      match s.world.readDir p with
+      match s.world.readDirP p with
       | some names => let (v, h) := s.heap.allocList (names.map .str); withHeap h v
       | none => err "fs-error"
     | [_] => err "must-be-string"
     | _ => err "arity"
   | .deleteDir =>
     match args with
-    | [.str p] => withWorld (s.world.deleteDirAll p) (.bool true)
+    | [.str p] => withWorld (s.world.deleteDirAllP p) (.bool true)
     | [_] => err "must-be-string"
     | _ => err "arity"
   | .fileOrDir =>
     match args with
     | [.str p] =>
-      match s.world.fileOrDir p with
+      match s.world.fileOrDirP p with
       | some true => .inl (.str W.wFile, s)
       | some false => .inl (.str W.wDir, s)
       | none => err "fs-error"
